@@ -393,4 +393,15 @@ theorem C08_fullbase_native_fee_below_two_blocks (n : Nat) (s : BF.State) (hm : 
       (BF.fcCreateMsg sender funds msg) (BF.fc_factory n s) hn h2 hW
   · exact hs'
 
+/-! ## Non-vacuity: the hypotheses of `C08_fullbase_refines_create` hold in a concrete composite state, and the projected
+aspect world accepts the same `CreateMinter` (kernel-evaluated) -/
+
+example : BF.StdCodes BF.exInit.codes := ⟨rfl, rfl⟩
+example : (BF.run BF.exInit (BF.exOps.take 2)).minter = none := by decide
+/-- the address counter stands at 1 (the factory is `contract0`): the witnessed addresses 1001 / 1002 are the allocated ones -/
+example : (FC.create (BF.fcOf 1 (BF.run BF.exInit (BF.exOps.take 2))) 1000 (BF.fcCreateMsg 11 [⟨0, 250000777⟩] BF.exMsg)).isOk = true := by
+  decide
+example : ((BF.fcOf 1 (BF.run BF.exInit (BF.exOps.take 3))).contracts.map fun c => (c.addr, c.code, c.admin)) =
+    [(1000, 15, some 90), (1001, 11, some 11), (1002, 18, some 10)] := by decide
+
 end LP
